@@ -80,6 +80,21 @@ func (p *ZPStr) String() string {
 
 type ZKey string
 
+// ZEmbNil promotes the fields of two embedded pointers to method-less structs (a method promoted through a nil
+// pointer would panic inside the method itself - not the engine's doing); at least one of them is nil in the zoo
+type ZEmbNil struct {
+	*ZInner
+	*ZPlain
+	Own string
+}
+
+type ZPlain struct {
+	Name string
+	B    string
+	Num  int
+	L    []string
+}
+
 type ZAnyHolder struct {
 	A any
 	B string
@@ -186,6 +201,8 @@ func zooEntries(s string) []zooEntry {
 		{"z_anymap", map[any]int{1: 1, "a": 2, 2.5: 3}, "map[any]int"},
 		{"z_nilvalueptr", (*pongo2.Value)(nil), "nil *pongo2.Value"},
 		{"z_slicekeyarr", [1]any{[]int{1}}, "comparable array type holding an unhashable value"},
+		{"z_embnil", ZEmbNil{Own: s}, "struct whose embedded pointers (promoting Title, Count, Tags, Name ...) are nil"},
+		{"z_pembnil", &ZEmbNil{ZInner: &ZInner{Title: s}, Own: s}, "pointer to a struct with one nil and one non-nil embedded pointer"},
 		{"z_chan", make(chan int), "channel"},
 		{"z_complex", complex(1, 2), "complex"},
 		{"z_rune", 'x', "rune"},
